@@ -56,3 +56,50 @@ Proof.
   - exact (get_method_finds _ _ _ L1 Hin Hl).
   - exact (get_method_finds _ _ _ L2 Hin Hl).
 Qed.
+
+(* ---- per-point arguments and the inner layer ---- *)
+From PB Require Import C16.Model C16.Proofs C16.PerPoint C16.PerPointProofs C16.InnerProofs.
+
+Lemma setups_checked :
+  setups_ok setups = true /\ inner_shapes_ok inner_shape_1d inner_shape_2d = true.
+Proof. split; vm_compute; reflexivity. Qed.
+
+Lemma setups_entries_ok : forall e, In e setups -> setup_ok e = true.
+Proof.
+  destruct setups_checked as [H _]. unfold setups_ok in H. apply andb_true_iff in H. destruct H as [H _].
+  rewrite forallb_forall in H. exact H.
+Qed.
+
+(* every translated setup: weights with the same logical values reach the body as the same array *)
+Theorem table_per_point : forall e, In e setups ->
+  forall size svd (a b ra rb : nd Z),
+    setup_weights e size svd a = VOk ra -> setup_weights e size svd b = VOk rb ->
+    (su_two_d e = false -> same_den a b ->
+       nd_shape ra = nd_shape rb /\ forall p, (0 <= p < prodZ (nd_shape a))%Z -> flat ra p = flat rb p)
+    /\ (su_two_d e = true -> nd_shape a = nd_shape b ->
+        (forall p, (0 <= p < prodZ (nd_shape a))%Z -> flat a p = flat b p) ->
+        nd_shape ra = nd_shape rb /\ forall p, (0 <= p < prodZ (nd_shape a))%Z -> flat ra p = flat rb p).
+Proof.
+  intros e Hin size svd a b ra rb Ha Hb. assert (Hok := setups_entries_ok e Hin).
+  unfold setup_ok in Hok. repeat (apply andb_true_iff in Hok; destruct Hok as [Hok ?]).
+  match goal with H1 : Bool.eqb (su_ensure_1d e) (negb (su_two_d e)) = true |- _ => apply Bool.eqb_prop in H1; rename H1 into He end.
+  split; intros Hd.
+  - intros Hden. rewrite Hd in He. cbn in He. exact (per_point_same_1d e size svd a b ra rb He Hden Ha Hb).
+  - intros Hs Hv. rewrite Hd in He. cbn in He. exact (per_point_same_2d e size svd a b ra rb He Hs Hv Ha Hb).
+Qed.
+
+(* the whole path of every module-level function: _class_wrapper, then _register.inner, then the method body *)
+Theorem table_full_path {V : Type} (yof : option V -> V) : forall e, In e sigs ->
+  exists ms, e_meth e = Some ms /\
+  forall (pos : list V) (kw : list (string * V)) (b : bound),
+    bind (e_func e) pos kw = Some b ->
+    exists margs mkw mb',
+      wrapper (e_func e) pos kw = WCall (b_get b X) margs mkw
+      /\ register_call yof ms margs mkw = Some mb'
+      /\ (forall n, b_get mb' n = if String.eqb n "data" then Some (yof (b_get b "data"))
+                                 else if String.eqb n X then None else b_get b n)
+      /\ b_extra mb' = b_extra b.
+Proof.
+  intros e Hin. destruct (table_entries_ok e Hin) as [ms [H1 [H2 [H3 _]]]]. exists ms. split; [exact H1|].
+  intros pos kw b Hb. exact (full_path yof _ _ _ _ _ H2 H3 Hb).
+Qed.
